@@ -1868,6 +1868,11 @@ class GroupBy:
         keep = ilocs > -1
         ilocs = ilocs[keep]
 
+        if keep_input_index and self._sort:
+            # rows come back in their original order (sorting by index *label* afterwards
+            # would reorder the rows of a group when the input index is not sorted)
+            ilocs = np.sort(ilocs)
+
         if keep_input_index:
             if common_index is None:
                 common_index = pd.RangeIndex(len(value_list[0]))
@@ -1898,7 +1903,7 @@ class GroupBy:
             result, values=values, n_values=len(value_names)
         )
 
-        if self._sort:
+        if self._sort and not keep_input_index:
             result.sort_index(inplace=True)
 
         return result
